@@ -1,5 +1,24 @@
 package main
 
-import "os"
+import (
+	"encoding/base64"
+	"os"
+	"strings"
+)
 
 func getenv(k string) string { return os.Getenv(k) }
+
+func b64url(b []byte) string { return base64.RawURLEncoding.EncodeToString(b) }
+
+// cleanPad removes empty path segments from AMP cache-breaking padding: the
+// HTTP mux would answer a path containing "//" with a redirect to the cleaned
+// path, which is net/http routing, not the endpoint under test.
+func cleanPad(p string) string {
+	for strings.Contains(p, "//") {
+		p = strings.Replace(p, "//", "/_", -1)
+	}
+	if strings.HasSuffix(p, "/") {
+		p += "x"
+	}
+	return p
+}
